@@ -66,7 +66,7 @@ func layerHist(h *harness.H) {
 
 // layerMin runs the enumerated scripted scenarios (scenarios.go).
 func layerMin(h *harness.H) {
-	h.AddRule("min: one case = one enumerated scripted scenario (lifecycle / failing create batch / failing delete batch / failing rename batch with and without a transaction / " +
+	h.AddRule("min: one case = one enumerated scripted scenario (lifecycle / retrieve-if-exists create batches mixing existing and new names, then further creates and a delete + create / failing create batch / failing delete batch / failing rename batch with and without a transaction / " +
 		"overwrite / name collision) over kind x leaseholder x gateway x entry point on a fresh cluster; distinct = scenario name; " +
 		"non-trivial = at least one successful create and >= 1 user channel compared across metadata and engine")
 	scs := buildScenarios(h.Thorough())
